@@ -52,7 +52,7 @@ def one(cat, rng, stack):
             for rp in ("backed", "borrowed"):
                 kd = len(b.h["d"].vals)
                 b.raw("pushitem d a #%d %s" % (k, rp), ("prefix", "idx"), cmp="status", sig="push-read-item-%s" % rp, shape="pushitem")
-                b.h["d"].vals.append(v)
+                b.record("d", v)
                 b.read("d", kd, sig="copied-item-differs-%s" % rp)
     if stack is None:
         b.readall("d", sig="copied-item-differs")
@@ -80,7 +80,7 @@ def encoded(cat, rng):
             b.raw("item a #%d %s cloneonto %s" % (k, rp, b.r(t)), ("eq", "val " + want), sig="clone_onto-differs-encoded-%s" % rp, shape="cloneonto")
             kd = len(b.h["d"].vals)
             b.raw("pushitem d a #%d %s" % (k, rp), ("prefix", "idx"), cmp="status", sig="push-read-item-encoded-%s" % rp, shape="pushitem")
-            b.h["d"].vals.append(v)
+            b.record("d", v)
             b.read("d", kd, sig="copied-item-differs-encoded-%s" % rp)
     b.readall("d", sig="copied-item-differs-encoded")
     b.readall("a", sig="source-changed-by-copy")
